@@ -146,6 +146,22 @@ class ContractTask(Task):
                 o["backend"] = ",".join(b for b in o["backend"].split(",") if b != "simplifier")
         if oos:
             obs.append(ob(c.target + ".in-subset", "out-of-reach", detail=sorted(set(oos))[:5]))
+            # bounded stand-in for a function the verifier cannot reach: the contract's clauses are evaluated natively on
+            # the real function for a few inputs drawn from the precondition.  Proves nothing; a clause that fails
+            # natively is a violation with its witness (the replay decides), anything else stays undecided.
+            have = {o["name"] for o in obs if o["status"] == "failed"}
+            try:
+                for po in native_probe(c, self.regfactory):
+                    if po["name"] not in have:
+                        cur = agg.get(po["name"])
+                        if cur is None or cur["status"] != "failed":
+                            cur = dict(po)
+                            cur["paths"], cur["hashes"], cur["failures"] = 0, [], []
+                            agg[po["name"]] = cur
+                            obs = [o for o in obs if o["name"] != po["name"]] + [cur]
+                        cur["failures"].append({"cex": po["cex"], "detail": po["detail"]})
+            except Exception as e:        # the probe is best effort
+                obs.append(ob(c.target + ".native-probe", "out-of-reach", detail=f"probe failed: {e!r}"[:300]))
         if fd is not None and fd.cls is not None:
             # every contract describes the fields of ONE object: two instances never share a field's container.  An attrs
             # field (or class attribute) whose default is a mutable literal is one object shared by all instances.
@@ -178,6 +194,105 @@ class ContractTask(Task):
                          "paths": len(partials), "covered": sorted(covered),
                          "assumptions": assumptions, "note": c.note, "props": c.props, "replay": c.replay,
                          "lemma": ({"source": c.source_text, "module": c.source_module} if c.source_text else None)}}
+
+
+def native_probe(c, regfactory, per_path=3, max_paths=6):
+    """inputs that satisfy the contract's precondition (solver models), one candidate 'failed' obligation per ensures /
+    raises-iff clause and input, marked bounded: only the native replay can turn one into a reported violation"""
+    import z3
+    from . import contract as C, solve
+    from .interp import Interp
+    from .ctx import PathEnd
+    fd = c.fdef
+    if fd is None:
+        return []
+
+    def setup(ctx):
+        reg = regfactory()
+        it = Interp(ctx, reg)
+        reg.current = fd.key
+        fr, selfobj = C.make_inputs(it, c, fd)
+        ctx.inputs = dict(fr.locals)
+        if c.pre_hook:
+            c.pre_hook(it, fr)
+        for r in c.requires:
+            ctx.assume(it.truth(it.eval_spec(r, fr)))
+        npc0, ndec0 = len(ctx.pc), len(ctx.decisions)
+        # steer the sampling towards the cases the clauses distinguish: the antecedent of every implies(A, B) clause
+        import ast as _ast
+        guards = []
+        oldfr = it.snapshot_frame(fr)
+        for _n, ex in list(c.ensures) + list(c.internal_ensures) + [(e_, c_) for e_, c_ in c.raises_exactly.items()]:
+            if not isinstance(ex, str):
+                continue
+            try:
+                tree = _ast.parse(ex.strip(), mode="eval").body
+            except SyntaxError:
+                continue
+            cand = [tree]
+            if isinstance(tree, _ast.Call) and isinstance(tree.func, _ast.Name) and tree.func.id in ("implies", "imp") and tree.args:
+                cand = [tree.args[0]]
+            for a in cand:
+                try:
+                    g = it.truth(it.eval_spec(_ast.unparse(a), fr, old=oldfr))
+                    if len(ctx.decisions) == ndec0 and not z3.is_true(z3.simplify(g)) and not z3.is_false(z3.simplify(g)):
+                        guards.append(g)
+                except Exception:
+                    pass
+        pr = C.PathResult()
+        pr.outcome = "setup"
+        pr.pc = list(ctx.pc[:npc0])
+        pr.guards = guards
+        pr.inputs = dict(ctx.inputs)
+        return pr
+
+    paths, _ = C.explore(setup, max_paths=max_paths)
+    out = []
+    key = fd.key
+    clauses = [(f"{key}.ensures.{n}", "ensures", ex) for n, ex in (c.ensures + c.internal_ensures) if isinstance(ex, str)] + \
+              [(f"{key}.raises[{e}].if", "raises-iff", cond) for e, cond in c.raises_exactly.items() if isinstance(cond, str)]
+    for pr in paths:
+        if pr.outcome != "setup":
+            continue
+        s = z3.Solver()
+        s.set("timeout", 3000)
+        for p in pr.pc:
+            s.add(p)
+        inputs = getattr(pr, "inputs", {})
+        steer = [g for g in getattr(pr, "guards", [])][:8]
+        for rnd in range(per_path + 2 * len(steer)):
+            extra = None
+            if rnd >= per_path:
+                g = steer[(rnd - per_path) // 2]
+                extra = g if (rnd - per_path) % 2 == 0 else z3.Not(g)
+            if extra is not None:
+                s.push()
+                s.add(extra)
+            ok = s.check() == z3.sat
+            m = s.model() if ok else None
+            if extra is not None:
+                s.pop()
+            if not ok:
+                if extra is not None:
+                    continue
+                break
+            try:
+                cex = {k: solve.concretize(v, m) for k, v in inputs.items()}
+            except Exception:
+                break
+            for name, kind, src in clauses:
+                out.append(ob(name, "failed", "native-probe", 0.0, False, cex,
+                              {"kind": kind, "src": src, "bounded": "native probe of a function out of the verifier's reach"},
+                              smt_hash=None, detail={"outcome": "native-probe", "decisions": [], "model": None}))
+            block = []
+            for v in inputs.values():
+                z = getattr(v, "z", None)
+                if z is not None and z3.is_expr(z) and (z.sort() == z3.IntSort() or z.sort() == z3.StringSort() or z.sort() == z3.BoolSort()):
+                    block.append(z != m.eval(z, model_completion=True))
+            if not block:
+                break
+            s.add(z3.Or(block))
+    return out
 
 
 class FuncTask(Task):
